@@ -182,4 +182,135 @@ theorem repaired_writer_parts_read_back (base : Bytes) (ps : List Bytes) (e : By
     splitBody b (joinBody b ps e) = some ps :=
   writer_parts_read_back b hcr ps e hne (chooseBoundary_ok base ps fuel 0 b hb)
 
+/-! ### the whole tree -/
+
+/-- what is stored: leaves with their text, containers with their media type and the base of their boundary
+(`----=_Part_<Subtype>_<row id>`); the boundaries themselves are chosen when the message is written -/
+inductive Src where
+  | leaf (text : Bytes) : Src
+  | multi (top : Bool) (ctype base : Bytes) (cs : List Src) : Src
+
+mutual
+/-- the repaired `reconstructPartDFS`: render the children, settle on a boundary they do not contain, write -/
+def assign (fuel : Nat) : Src → Option Tree
+  | .leaf t => some (.leaf t)
+  | .multi top ctype base cs =>
+    match assignList fuel cs with
+    | none => none
+    | some ts =>
+      match chooseBoundary base (coreList ts) fuel 0 with
+      | none => none
+      | some b => some (.multi (containerHeader top ctype b) b ts)
+def assignList (fuel : Nat) : List Src → Option (List Tree)
+  | [] => some []
+  | s :: ss =>
+    match assign fuel s, assignList fuel ss with
+    | some t, some ts => some (t :: ts)
+    | _, _ => none
+end
+
+mutual
+/-- no boundary base contains a carriage return (they are `----=_Part_<Subtype>_<id>`) -/
+def basesOK : Src → Bool
+  | .leaf _ => true
+  | .multi _ _ base cs => !base.contains 13 && basesOKList cs
+def basesOKList : List Src → Bool
+  | [] => true
+  | s :: ss => basesOK s && basesOKList ss
+end
+
+mutual
+/-- the header reader (library code, a parameter) reads every container header as it was written and takes no leaf for a
+container -/
+def headersRead (K : HeaderReader) : Tree → Bool
+  | .leaf t => (K t).isNone
+  | .multi h b cs => (K (h ++ joinBody b (coreList cs) []) == some (h, b, joinBody b (coreList cs) [])) && headersReadList K cs
+def headersReadList (K : HeaderReader) : List Tree → Bool
+  | [] => true
+  | t :: ts => headersRead K t && headersReadList K ts
+end
+
+theorem candidate_no_cr (base : Bytes) (h : 13 ∉ base) (n : Nat) : 13 ∉ candidate base n := by
+  unfold candidate
+  split
+  · exact h
+  · intro hm
+    simp only [List.mem_append, List.mem_singleton] at hm
+    rcases hm with (hm | hm) | hm
+    · exact h hm
+    · exact absurd hm (by decide)
+    · have := Dec.print_digits (n - 1) 13 hm
+      revert this; decide
+
+theorem chooseBoundary_no_cr (base : Bytes) (h : 13 ∉ base) (ps : List Bytes) : ∀ (fuel n : Nat) (b : Bytes),
+    chooseBoundary base ps fuel n = some b → 13 ∉ b
+  | 0, _, _, hb => by simp [chooseBoundary] at hb
+  | fuel + 1, n, b, hb => by
+    simp only [chooseBoundary] at hb
+    by_cases hall : passes (candidate base n) ps = true
+    · simp only [hall, if_true, Option.some.injEq] at hb
+      subst hb; exact candidate_no_cr base h n
+    · simp only [hall, Bool.false_eq_true, if_false] at hb
+      exact chooseBoundary_no_cr base h ps fuel (n + 1) b hb
+
+mutual
+/-- what the repaired writer produces satisfies the side condition of the read-back theorem — by construction, whatever the
+leaves contain -/
+theorem assign_fresh (K : HeaderReader) (fuel : Nat) : ∀ (s : Src) (t : Tree), assign fuel s = some t → basesOK s = true →
+    headersRead K t = true → fresh K t = true
+  | .leaf x, t, ha, _, hr => by
+    simp only [assign, Option.some.injEq] at ha
+    subst ha
+    simpa [fresh, headersRead] using hr
+  | .multi top ctype base cs, t, ha, hb, hr => by
+    simp only [assign] at ha
+    cases hts : assignList fuel cs with
+    | none => simp [hts] at ha
+    | some ts =>
+      simp only [hts] at ha
+      cases hcb : chooseBoundary base (coreList ts) fuel 0 with
+      | none => simp [hcb] at ha
+      | some b =>
+        simp only [hcb, Option.some.injEq] at ha
+        subst ha
+        simp only [basesOK, Bool.and_eq_true, Bool.not_eq_true'] at hb
+        have hbase : 13 ∉ base := by
+          intro hm
+          have : base.contains 13 = true := List.contains_iff_mem.mpr hm
+          rw [hb.1] at this; cases this
+        simp only [headersRead, Bool.and_eq_true] at hr
+        have hcr := chooseBoundary_no_cr base hbase (coreList ts) fuel 0 b hcb
+        have hok := chooseBoundary_ok base (coreList ts) fuel 0 b hcb
+        have hclean := cleanAll_of_not_flagged b hcr (coreList ts) [] hok
+        have hkids := assignList_fresh K fuel cs ts hts hb.2 hr.2
+        simp only [fresh, Bool.and_eq_true]
+        exact ⟨⟨hr.1, hclean⟩, hkids⟩
+theorem assignList_fresh (K : HeaderReader) (fuel : Nat) : ∀ (ss : List Src) (ts : List Tree), assignList fuel ss = some ts →
+    basesOKList ss = true → headersReadList K ts = true → freshList K ts = true
+  | [], ts, ha, _, _ => by
+    simp only [assignList, Option.some.injEq] at ha
+    subst ha; rfl
+  | s :: ss, ts, ha, hb, hr => by
+    simp only [assignList] at ha
+    cases h1 : assign fuel s with
+    | none => simp [h1] at ha
+    | some t =>
+      cases h2 : assignList fuel ss with
+      | none => simp [h1, h2] at ha
+      | some ts' =>
+        simp only [h1, h2, Option.some.injEq] at ha
+        subst ha
+        simp only [basesOKList, Bool.and_eq_true] at hb
+        simp only [headersReadList, Bool.and_eq_true] at hr
+        simp only [freshList, Bool.and_eq_true]
+        exact ⟨assign_fresh K fuel s t h1 hb.1 hr.1, assignList_fresh K fuel ss ts' h2 hb.2 hr.2⟩
+end
+
+/-- **the repaired writer, end to end**: for every stored tree — any depth, any number of parts, any octets in the leaves —
+the text it writes is taken apart by a reader into exactly the tree it was written from. (The header reader is library
+code: it is assumed to read the container headers the writer produces and to take no leaf for a container.) -/
+theorem repaired_tree_reads_back (K : HeaderReader) (fuel : Nat) (s : Src) (t : Tree) (f : Nat) (ha : assign fuel s = some t)
+    (hb : basesOK s = true) (hr : headersRead K t = true) (hf : depth t ≤ f) : parse K f (core t) = some t :=
+  parse_core K t f hf (assign_fresh K fuel s t ha hb hr)
+
 end Raven.Mime
